@@ -2,6 +2,7 @@ use std::sync::Arc;
 
 use crate::core::DynMonitor;
 use crate::core::Erased;
+use crate::core::Multi;
 
 pub mod c01;
 pub mod c02;
@@ -11,9 +12,13 @@ pub mod c09e;
 pub mod c10e;
 pub mod c14;
 pub mod c15;
+pub mod c16;
 pub mod c16e;
+pub mod c17;
 pub mod c18;
+pub mod c19;
 pub mod c19e;
+pub mod cfgcommon;
 pub mod c20;
 pub mod diffcommon;
 pub mod seqcommon;
@@ -25,12 +30,19 @@ pub fn by_id(id: &str) -> Option<Arc<dyn DynMonitor>> {
         "C03" => Arc::new(Erased(c03::C03)),
         "C05" => Arc::new(Erased(c05::C05)),
         "C18" => Arc::new(Erased(c18::C18)),
-        "C16" => Arc::new(Erased(c16e::C16e)),
+        "C16" => Arc::new(Multi {
+            id: "C16",
+            parts: vec![Arc::new(Erased(c16::C16)), Arc::new(Erased(c16e::C16e))],
+        }),
+        "C17" => Arc::new(Erased(c17::C17)),
         "C14" => Arc::new(Erased(c14::C14)),
         "C15" => Arc::new(Erased(c15::C15)),
         "C20" => Arc::new(Erased(c20::C20)),
         "C09" => Arc::new(Erased(c09e::C09e)),
-        "C19" => Arc::new(Erased(c19e::C19e)),
+        "C19" => Arc::new(Multi {
+            id: "C19",
+            parts: vec![Arc::new(Erased(c19::C19)), Arc::new(Erased(c19e::C19e))],
+        }),
         "C10" => Arc::new(Erased(c10e::C10e)),
         _ => return None,
     })
